@@ -30,7 +30,7 @@ Judge(S) == viol' = viol \cup Broken(S)
 FreshTr == [id |-> 0, ktx |-> [s \in Sides |-> ""], krx |-> [s \in Sides |-> ""], started |-> {}, rtpSeen |-> {}]
 
 DefaultCfg == [mode |-> "WebRtc", media |-> {"dc"}, bundle |-> "balanced", mux |-> "require", ice |-> "full",
-               latching |-> FALSE, compat |-> "Standard", offerer |-> "A", sched |-> "plain"]
+               latching |-> FALSE, compat |-> "Standard", offerer |-> "A", sched |-> "plain", reneg |-> "none"]
 
 Blank(c) ==
     /\ cfg' = c
@@ -44,6 +44,7 @@ Blank(c) ==
     /\ chan' = [s \in Sides |-> "none"]
     /\ peer' = [s \in Sides |-> "New"]
     /\ dcGot' = [s \in Sides |-> FALSE] /\ rtpGot' = [s \in Sides |-> FALSE]
+    /\ round' = 1
 
 TraceInit ==
     /\ cfg = DefaultCfg
@@ -57,6 +58,7 @@ TraceInit ==
     /\ chan = [s \in Sides |-> "none"]
     /\ peer = [s \in Sides |-> "New"]
     /\ dcGot = [s \in Sides |-> FALSE] /\ rtpGot = [s \in Sides |-> FALSE]
+    /\ round = 1
     /\ l = 1 /\ viol = {} /\ tr = FreshTr
     /\ TLCSet(1, 1)
 
@@ -69,7 +71,7 @@ TReset ==
     /\ Is("reset")
     /\ LET c == [mode |-> Ev.site, media |-> MediaOf(Ev), bundle |-> Ev.x, mux |-> Ev.sig, ice |-> Ev.peer,
                  latching |-> Ev.b4, compat |-> Ev.reason, offerer |-> Ev.inst,
-                 sched |-> IF Ev.m = 1 THEN "slowSetRemote" ELSE "plain"]
+                 sched |-> IF Ev.m = 1 THEN "slowSetRemote" ELSE "plain", reneg |-> Ev.evs[1]]
        IN /\ Blank(c)
           /\ viol' = Broken({<<"C10.Lattice", Compatible(c)>>})
     /\ tr' = [FreshTr EXCEPT !.id = Ev.n]
@@ -82,6 +84,11 @@ TSig ==
        \/ Ev.site = "remote.offer" /\ Ev.inst = Ans /\ SetRemoteOffer
        \/ Ev.site = "local.answer" /\ Ev.inst = Ans /\ SetLocalAnswer
        \/ Ev.site = "remote.answer" /\ Ev.inst = Off /\ SetRemoteAnswer
+       \* second round (renegotiation): the same four commits, started by either side
+       \/ Ev.site = "local.offer" /\ Ev.inst = RSide /\ RenegLocalOffer
+       \/ Ev.site = "remote.offer" /\ Ev.inst = OSide /\ RenegRemoteOffer
+       \/ Ev.site = "local.answer" /\ Ev.inst = OSide /\ RenegLocalAnswer
+       \/ Ev.site = "remote.answer" /\ Ev.inst = RSide /\ RenegRemoteAnswer
     /\ Judge({<<"EXT", sig'[Ev.inst] = Ev.sig>>})
     /\ UNCHANGED tr /\ Consume
 
@@ -98,14 +105,14 @@ TStartTransport ==
                     <<"C10.Roles", IsWeb <=> r \in {"client", "server"}>>,
                     <<"EXT", rdesc[s] \/ cfg.sched = "slowSetRemote">>})
     /\ tr' = [tr EXCEPT !.started = @ \cup {Ev.inst}]
-    /\ UNCHANGED <<cfg, sig, ldesc, rdesc, keys, chan, peer, dcGot, rtpGot>>
+    /\ UNCHANGED <<cfg, sig, ldesc, rdesc, keys, chan, peer, dcGot, rtpGot, round>>
     /\ Consume
 
 TDtlsConnected ==
     /\ Is("dtls_connected")
     /\ dtls' = [dtls EXCEPT ![Ev.inst] = "connected"]
     /\ Judge({<<"EXT", IsWeb /\ dtls[Ev.inst] = "handshaking">>})
-    /\ UNCHANGED <<cfg, sig, ldesc, rdesc, ice, role, keys, sctp, chan, peer, dcGot, rtpGot>>
+    /\ UNCHANGED <<cfg, sig, ldesc, rdesc, ice, role, keys, sctp, chan, peer, dcGot, rtpGot, round>>
     /\ UNCHANGED tr /\ Consume
 
 \* keying material installed: x = hash of the send key, reason = hash of the receive key
@@ -120,7 +127,7 @@ TKeys ==
                     <<"C10.Keys", cfg.mode # "Rtp">>,
                     <<"EXT", IsWeb => dtls[s] = "connected">>,
                     <<"EXT", (cfg.mode = "Srtp") => (ldesc[s] /\ rdesc[s])>>})
-    /\ UNCHANGED <<cfg, sig, ldesc, rdesc, ice, role, dtls, sctp, chan, peer, dcGot, rtpGot>>
+    /\ UNCHANGED <<cfg, sig, ldesc, rdesc, ice, role, dtls, sctp, chan, peer, dcGot, rtpGot, round>>
     /\ Consume
 
 \* Connected publication of one side
@@ -130,14 +137,14 @@ TPubConnected ==
     /\ Judge({<<"EXT", Ev.inst \in tr.started>>,
               <<"EXT", IsWeb => dtls[Ev.inst] = "connected">>,
               <<"C10.Keys", (cfg.mode # "Rtp") => tr.ktx[Ev.inst] # "">>})
-    /\ UNCHANGED <<cfg, sig, ldesc, rdesc, ice, role, dtls, keys, sctp, chan, dcGot, rtpGot>>
+    /\ UNCHANGED <<cfg, sig, ldesc, rdesc, ice, role, dtls, keys, sctp, chan, dcGot, rtpGot, round>>
     /\ UNCHANGED tr /\ Consume
 
 TPubOther ==
     /\ Is("pub") /\ Ev.site # "conn.connected"
     /\ peer' = [peer EXCEPT ![Ev.inst] = IF Ev.peer = "Failed" THEN "Failed" ELSE @]
     /\ Judge({<<"C10.Connected", Ev.peer \notin {"Failed", "Disconnected"}>>})
-    /\ UNCHANGED <<cfg, sig, ldesc, rdesc, ice, role, dtls, keys, sctp, chan, dcGot, rtpGot>>
+    /\ UNCHANGED <<cfg, sig, ldesc, rdesc, ice, role, dtls, keys, sctp, chan, dcGot, rtpGot, round>>
     /\ UNCHANGED tr /\ Consume
 
 TDcOpen ==
@@ -145,24 +152,34 @@ TDcOpen ==
     /\ chan' = [chan EXCEPT ![Ev.inst] = "open"]
     /\ sctp' = [sctp EXCEPT ![Ev.inst] = "established"]
     /\ Judge({<<"EXT", HasDc /\ (IsWeb => dtls[Ev.inst] = "connected")>>})
-    /\ UNCHANGED <<cfg, sig, ldesc, rdesc, ice, role, dtls, keys, peer, dcGot, rtpGot>>
+    /\ UNCHANGED <<cfg, sig, ldesc, rdesc, ice, role, dtls, keys, peer, dcGot, rtpGot, round>>
     /\ UNCHANGED tr /\ Consume
 
 \* delivery verdicts of the harness: b1 = arrived, b2 = byte-identical to what was sent
 TDcDelivery ==
     /\ Is("dc_delivery")
     /\ dcGot' = [dcGot EXCEPT ![Ev.inst] = Ev.b1]
-    /\ Judge({<<"C10.DcDelivery", Ev.b1>>, <<"EXT", Ev.b1 => chan[Ev.inst] = "open">>})
-    /\ UNCHANGED <<cfg, sig, ldesc, rdesc, ice, role, dtls, keys, sctp, chan, peer, rtpGot>>
+    /\ Judge({<<"C10.DcDelivery", Ev.b1>>, <<"EXT", Ev.b1 => chan[Ev.inst] = "open">>,
+              <<"EXT", (Ev.n = 2) <=> (round = 5)>>})
+    /\ UNCHANGED <<cfg, sig, ldesc, rdesc, ice, role, dtls, keys, sctp, chan, peer, rtpGot, round>>
     /\ UNCHANGED tr /\ Consume
 
 TRtpDelivery ==
     /\ Is("rtp_delivery")
     /\ rtpGot' = [rtpGot EXCEPT ![Ev.inst] = (Ev.b1 /\ Ev.b2) /\ (Ev.inst \in tr.rtpSeen => @)]
     /\ Judge({<<"C10.RtpDelivery", Ev.b1>>, <<"C10.RtpIntact", Ev.b1 => Ev.b2>>,
-              <<"EXT", Ev.b1 => peer[Ev.inst] = "Connected">>})
-    /\ UNCHANGED <<cfg, sig, ldesc, rdesc, ice, role, dtls, keys, sctp, chan, peer, dcGot>>
+              <<"EXT", Ev.b1 => peer[Ev.inst] = "Connected">>,
+              <<"EXT", (Ev.n = 2) <=> (round = 5)>>})
+    /\ UNCHANGED <<cfg, sig, ldesc, rdesc, ice, role, dtls, keys, sctp, chan, peer, dcGot, round>>
     /\ tr' = [tr EXCEPT !.rtpSeen = @ \cup {Ev.inst}] /\ Consume
+
+\* the harness's verdict on the second offer/answer round: b1 = all six calls succeeded, b2 = both sides still Connected
+TReneg ==
+    /\ Is("reneg")
+    /\ Judge({<<"C10.Reneg", Ev.b1>>, <<"C10.Reneg", Ev.b2>>, <<"C10.Reneg", StaysConnected>>,
+              <<"EXT", Ev.b1 => round = 5>>})
+    /\ tr' = [tr EXCEPT !.rtpSeen = {}]
+    /\ UNCHANGED vars /\ Consume
 
 \* end: b1 = signalling succeeded, b2 = both sides Connected within the bound, b3 = resources released
 TEnd ==
@@ -173,6 +190,7 @@ TEnd ==
                                    <<"C10.Roles", Ev.b2 => RolesComplementary>>,
                                    <<"C10.DcDelivery", (Ev.b2 /\ HasDc) => \A s \in Sides : dcGot[s]>>,
                                    <<"C10.RtpDelivery", (Ev.b2 /\ HasMedia) => \A s \in Sides : rtpGot[s]>>,
+                                   <<"C10.Reneg", (Ev.b2 /\ cfg.reneg # "none") => round = 5>>,
                                    <<"EXT", Ev.b3>>})
        IN /\ viol' = v
           /\ PrintT(<<"VERDICT", ToJson([id |-> tr.id, viol |-> v])>>)
@@ -180,7 +198,7 @@ TEnd ==
 
 TraceNext ==
     \/ TReset \/ TSig \/ TStartTransport \/ TDtlsConnected \/ TKeys \/ TPubConnected \/ TPubOther
-    \/ TDcOpen \/ TDcDelivery \/ TRtpDelivery \/ TEnd
+    \/ TDcOpen \/ TDcDelivery \/ TRtpDelivery \/ TReneg \/ TEnd
 
 TraceSpec == TraceInit /\ [][TraceNext]_tvars
 
